@@ -54,6 +54,16 @@ pub fn fill_sparse(cfg: &Cfg) -> Vec<Cmd> {
             })
             .collect();
         v.push(Text(s));
+        if cols >= 12 && r % 2 == 1 {
+            // a second, short piece of text behind a gap of never-written blanks
+            v.push(Cup(Some(r as u32 + 1), Some(cols * 5 / 8)));
+            v.push(Text("mid".into()));
+        }
+        if cols >= 12 && r == 1 && cfg.rows > 3 {
+            // a row that is blank AND soft-wrapped: blanks typed up to the right edge and beyond
+            v.push(Cup(Some(cfg.rows as u32 - 1), Some(1)));
+            v.push(Text(format!("{}y", " ".repeat(cfg.cols))));
+        }
         if cols >= 12 {
             v.push(sgr1(44));
             v.push(Cup(Some(r as u32 + 1), Some(cols / 2)));
